@@ -345,4 +345,24 @@ def standard_coq_phase(run, cid, gens=(), extra_targets=()):
         run.finding("coq:%s" % cid, "broken-obligation",
                     "proof obligations of Properties_%s.v no longer check: %s" % (cid, where),
                     {"theorem_file": "coq/theories/Properties_%s.v" % cid, "errors": where})
+    if run.tier == "thorough" and ok and props["ok"]:
+        # independent re-check of the compiled property file and everything under it
+        cmd = "coqchk -silent -o -Q theories Adept -Q generated AdeptGen Adept.Properties_%s" % cid
+        with Lock("coq.lock"):
+            rc, so, se = sh("timeout 1500 " + cmd, cwd=COQ, timeout=1520)
+        out = so + se
+        m = re.search(r"\* Axioms:(.*?)\n\s*\n\* Constants/Inductives relying on type-in-type:(.*?)\n\s*\n\* Constants/Inductives relying on unsafe \(co\)fixpoints:(.*?)\n\s*\n\* Inductives whose positivity is assumed:(.*?)\n", out, re.S)
+        if rc == 124:
+            run.notes.append("coqchk did not finish within 25 minutes; not counted")
+        elif rc != 0 or not m:
+            ok_all = False
+            run.finding("coqchk:%s" % cid, "broken-obligation", "coqchk rejects the compiled Properties_%s.vo or its dependencies: %s" % (cid, out[-600:]), {"cmd": cmd, "output": out[-3000:]})
+        else:
+            ax = [a.strip() for a in m.group(1).strip().split("\n") if a.strip() and a.strip() != "<none>"]
+            unsafe = [g.strip() for g in (m.group(2), m.group(3), m.group(4)) if g.strip() != "<none>"]
+            run.coverage["coqchk"] = {"cmd": cmd, "axioms_of_all_loaded_libraries": ax, "type_in_type_unsafe_fixpoints_assumed_positivity": unsafe or "none"}
+            run.coverage["checker_cmd"] += " ; " + cmd
+            if unsafe:
+                ok_all = False
+                run.finding("coqchk-unsafe:%s" % cid, "broken-obligation", "coqchk reports definitions relying on disabled checks: %s" % unsafe, {"cmd": cmd})
     return ok_all
